@@ -77,8 +77,8 @@ func selftestMain(args []string) int {
 	// 3. replay determinism of a concurrent scenario
 	p := registry["C19"]
 	sc := p.Gen(deriveSeed(7, "C19", 3), 3, "quick")
-	a := runClients(sc, sc.Schedule)
-	b := runClients(sc, sc.Schedule)
+	a := runClients(sc, true)
+	b := runClients(sc, true)
 	if a.traceH != b.traceH || a.yields != b.yields {
 		return fail("concurrent scenario is not reproducible: interleaving %x/%d vs %x/%d", a.traceH, a.yields, b.traceH, b.yields)
 	}
